@@ -54,6 +54,11 @@ def p2_structs(reduced=False):
     timer = TypeDef("TIMER", 0xF83, 0x0F83, 12, [Member("CTL", "DINT", 0), Member("PRE", "DINT", 4), Member("ACC", "DINT", 8),
                                                    Member("EN", "BOOL", 3, 0, 7), Member("TT", "BOOL", 3, 0, 6), Member("DN", "BOOL", 3, 0, 5)], predefined=True, first_member_is_name=False)
     p.add_type(timer)
+    # header-less predefined templates (the name travels as the first member name) at both ends of the predefined id ranges
+    hl = []
+    for nm, tid, hnd in (("COUNTER", 0xF82, 0x0F82), ("ModA5", 0x0A5, 0x1A5), ("Mod20", 0x020, 0x120), ("ModFF", 0x0FF, 0x1FF), ("Mod64", 0x064, 0x164)):
+        hl.append(p.add_type(TypeDef(nm, tid, hnd, 12, [Member("CTL", "DINT", 0), Member("PRE", "DINT", 4), Member("ACC", "DINT", 8),
+                                                   Member("CU", "BOOL", 3, 0, 7), Member("DN", "BOOL", 3, 0, 5)], predefined=True, first_member_is_name=True)))
     # an AOI-like type with EnableIn/EnableOut
     aoi = p.add_type(layout("MyAOI", 0x308, 0xB008, [("EnableIn", "BOOL", 0), ("EnableOut", "BOOL", 0), ("param", "DINT", 0), ("local", padded, 0)]))
     ids = iter(range(10, 400))
@@ -73,6 +78,8 @@ def p2_structs(reduced=False):
     p.tag("s480", s480, instance_id=next(ids))
     p.tag("hid1", hid, instance_id=next(ids))
     p.tag("timer1", timer, instance_id=next(ids))
+    for i, td_ in enumerate(hl):
+        p.tag("hl_%s" % td_.name.lower(), td_, instance_id=300 + i)
     p.tag("aoi1", aoi, instance_id=next(ids))
     p.tag("plain", "DINT", instance_id=next(ids))
     p.tag("plain2", "DINT", instance_id=next(ids))
@@ -172,6 +179,9 @@ def p4_scale(n=260):
     p.tag("twin_s20", ts1, instance_id=0x5003)
     p.tag("twin_s12", ts2, instance_id=0x5004)
     p.tag("twin_holder", twp, instance_id=0x5005)
+    # a structure larger than 64 KiB: member offsets beyond 16 bits
+    huge = p.add_type(layout("HugeUDT", 0x326, 0xD200, [("head", "DINT", 0), ("blob", "SINT", 40000), ("blob2", "INT", 14000), ("after", "DINT", 0), ("flag", "BOOL", 0), ("flag2", "BOOL", 0), ("r", "REAL", 0), ("tail", "INT", 3)]))
+    p.tag("huge1", huge, instance_id=0x5010)
     p.tag("ids_parent", par, instance_id=0xFF)
     p.tag("ids_c4", t1, instance_id=0x101)  # 0x100 is taken by tag_052
     p.tag("ids_ca_ary", t2, (2,), instance_id=0xFFFF)
